@@ -88,3 +88,32 @@ def _default(o):
     if isinstance(o, tuple):
         return list(o)
     return str(o)
+
+
+ACCESSORS = ('get_parameter_names', 'parameters', 'outputs', 'get_id', 'get_dim_names', 'get_covariate_names',
+             'get_output_names', 'get_submodels')
+
+
+def scribble(obj, names=ACCESSORS):
+    """Accessors are stuttering steps of every specification: they return information and leave the object alone.
+    Calls every name / ID accessor the object has and SCRIBBLES over whatever list (or dict) it returns, as a caller is
+    free to do; an accessor that hands out its internal list is exposed by the literal comparisons that follow."""
+    n = 0
+    for a in names:
+        f = getattr(obj, a, None)
+        if f is None:
+            continue
+        try:
+            r = f()
+        except Exception:
+            continue
+        if isinstance(r, list):
+            r.append('scribbled by the caller')
+            if len(r) > 1:
+                r[0] = 'scribbled too'
+            n += 1
+        elif isinstance(r, dict):
+            r.clear()
+            r['scribbled by the caller'] = None
+            n += 1
+    return n
